@@ -123,6 +123,7 @@ class ArffAttrReader(Filter[Iterable[str], Iterable[Tuple[str,Callable]]]):
 class ArffDataReader(Filter[Iterable[str], Iterable[Union[Dense,Sparse]]]):
 
     _trans = str.maketrans('','',' \t\n\r\v\f')
+    _r_sparse_missing = re.compile(r"\s\?\s*[,}]")
 
     def __init__(self, is_dense:bool) -> None:
         self._is_dense = is_dense
@@ -148,7 +149,7 @@ class ArffDataReader(Filter[Iterable[str], Iterable[Union[Dense,Sparse]]]):
 
         for line in lines:
             if line[0] == "%": continue
-            missing = " ?," in line or line[-3:] == " ?}"
+            missing = "?" in line and self._r_sparse_missing.search(line) is not None
             yield line,missing
 
 class ArffLineReader(Filter[str, Sequence[str]]):
